@@ -178,8 +178,10 @@ class ToNNX(Module):
       nnx_attrs = bv.linen_vars_to_nnx_attrs(updates)
       for attr_name, value in nnx_attrs.items():
         if hasattr(self, attr_name) and isinstance(value, dict):
+          # Merge leaf by leaf: a shallow ``original_tree | value`` would replace
+          # every nested sub-dict the update touches and drop its other leaves.
           original_tree = getattr(self, attr_name)
-          setattr(self, attr_name, original_tree | value)
+          setattr(self, attr_name, bv._recursive_merge(original_tree, value))
         else:
           setattr(self, attr_name, value)
 
